@@ -32,17 +32,19 @@ def hsteps(ctx, f, x, n, prec, **options):
     singular = options.get('singular')
     addprec = options.get('addprec', 10)
     direction = options.get('direction', 0)
-    workprec = (prec+2*addprec) * (n+1)
+    h = options.get('h')
+    if h is None and options.get('relative'):
+        hextramag = int(ctx.mag(x))
+    else:
+        hextramag = 0
+    # A step relative to a tiny x is tiny: each difference order then
+    # cancels -hextramag further bits of the function values
+    workprec = (prec+2*addprec) * (n+1) + n*max(0, -hextramag)
     orig = ctx.prec
     try:
         ctx.prec = workprec
-        h = options.get('h')
         if h is None:
-            if options.get('relative'):
-                hextramag = int(ctx.mag(x))
-            else:
-                hextramag = 0
-            h = ctx.ldexp(1, -prec-addprec-hextramag)
+            h = ctx.ldexp(1, -prec-addprec+hextramag)
         else:
             h = ctx.convert(h)
         # Directed: steps x, x+h, ... x+n*h
